@@ -15,7 +15,7 @@ fn space_for(tier: Tier) -> (Space, usize) {
     let mut s = Space::new();
     match tier {
         Tier::Quick => {
-            s.ast("K0", 5, 128).ast("Q", 3, 128).ast("CL", 3, 128).ast("AN", 3, 128);
+            s.ast("K0", 5, 128).ast("Q", 3, 128).ast("CL", 4, 128).ast("AN", 3, 128);
             s.ast_range("LP", 1, 3, 64, 5);
             s.ast_range("ALT", 1, 4, 64, 4);
             (s, 3)
